@@ -83,10 +83,11 @@ VARIABLES ipmap, jwl, jbl, gwl, gbl,   \* the process-global maps (sets of keys)
           cur,                          \* configuration of the last InitCfg (rpcCfg pointer; also read by the eth server)
           applied,                      \* set of configurations applied in this process
           ncfg, nreq, act,
+          lastc,                        \* generation only: value of nreq at the last Cfg / Restart (spacing)
           pend                          \* exhaustive mode only: the IP part of the next configuration (two-stage choice,
                                         \* so that TLC's workers share the enumeration)
-vars == <<ipmap, jwl, jbl, gwl, gbl, cur, applied, ncfg, nreq, act, pend>>
-view == <<ipmap, jwl, jbl, gwl, gbl, cur, applied, ncfg, nreq, pend>>
+vars == <<ipmap, jwl, jbl, gwl, gbl, cur, applied, ncfg, nreq, act, lastc, pend>>
+view == <<ipmap, jwl, jbl, gwl, gbl, cur, applied, ncfg, nreq, lastc, pend>>
 
 NoCfg == [wn |-> {}, wo |-> {}, jw |-> {}, jb |-> {}, gw |-> {}, gb |-> {}, au |-> "none"]
 
@@ -165,21 +166,21 @@ RetG(a)    == [m \in GMethods |-> V(MayRun("grpc", a, m, "none", applied))]
 
 ReqJ(a, m, d, p, sh) ==
   /\ cur # NoCfg
-  /\ UNCHANGED <<ipmap, jwl, jbl, gwl, gbl, cur, applied, ncfg, pend>>
+  /\ UNCHANGED <<ipmap, jwl, jbl, gwl, gbl, cur, applied, ncfg, lastc, pend>>
   /\ nreq' = nreq + 1
   /\ Emit([op |-> "Req", ep |-> "jrpc", a |-> a, m |-> m, d |-> d, p |-> p, sh |-> sh,
            mx |-> B3(sh \in JExact /\ p # "goodalt", MechJ(a, m, p)),
            ret |-> RetJ(a, p)])
 ReqG(a, m, sh) ==
   /\ cur # NoCfg
-  /\ UNCHANGED <<ipmap, jwl, jbl, gwl, gbl, cur, applied, ncfg, pend>>
+  /\ UNCHANGED <<ipmap, jwl, jbl, gwl, gbl, cur, applied, ncfg, lastc, pend>>
   /\ nreq' = nreq + 1
   /\ Emit([op |-> "Req", ep |-> "grpc", a |-> a, m |-> m, sh |-> sh,
            mx |-> B3(sh \in GExact, MechG(a, m)),
            ret |-> RetG(a)])
 ReqE(a, sh) ==
   /\ cur # NoCfg
-  /\ UNCHANGED <<ipmap, jwl, jbl, gwl, gbl, cur, applied, ncfg, pend>>
+  /\ UNCHANGED <<ipmap, jwl, jbl, gwl, gbl, cur, applied, ncfg, lastc, pend>>
   /\ nreq' = nreq + 1
   /\ LET strict == ncfg = 1 /\ IPConf(cur) # {} IN
      Emit([op |-> "Req", ep |-> "eth", a |-> a, sh |-> sh, vj |-> ViaJ, vg |-> ViaG,
@@ -194,13 +195,13 @@ Restart ==
   /\ ncfg > 0
   /\ ipmap' = {} /\ jwl' = {} /\ jbl' = {} /\ gwl' = {} /\ gbl' = {}
   /\ cur' = NoCfg /\ applied' = {} /\ ncfg' = 0
-  /\ UNCHANGED <<nreq, pend>>
+  /\ UNCHANGED <<nreq, pend>> /\ lastc' = nreq
   /\ Emit([op |-> "Restart", ret |-> "ok"])
 
 CfgStep(c) ==
   /\ ncfg < MaxCfgs
   /\ InitCfg(c)
-  /\ UNCHANGED nreq
+  /\ UNCHANGED nreq /\ lastc' = nreq
   /\ Emit([op |-> "Cfg", c |-> CfgJson(c), ret |-> "ok"])
 
 \* universe of configurations.  GLock couples the gRPC lists to the JSON-RPC lists through a fixed
@@ -214,18 +215,19 @@ CfgU(wn, wo) ==
         THEN {[wn |-> wn, wo |-> wo, jw |-> r.jw, jb |-> r.jb, gw |-> Shift(r.jw), gb |-> Shift(r.jb), au |-> r.au] :
                  r \in [jw : FnW, jb : FnB, au : AuthModes]}
         ELSE [wn : {wn}, wo : {wo}, jw : FnW, jb : FnB, gw : FnW, gb : FnB, au : AuthModes]
-RandCfg == [wn |-> RandomElement(IPSets), wo |-> RandomElement(IPSets), jw |-> RandomElement(FnW),
+\* (the parameter keeps TLC from evaluating this once and for all as a constant-level definition)
+RandCfg(k) == [wn |-> RandomElement(IPSets), wo |-> RandomElement(IPSets), jw |-> RandomElement(FnW),
             jb |-> RandomElement(FnB), gw |-> RandomElement(FnW), gb |-> RandomElement(FnB),
             au |-> RandomElement(AuthModes)]
 
 Init == /\ ipmap = {} /\ jwl = {} /\ jbl = {} /\ gwl = {} /\ gbl = {}
-        /\ cur = NoCfg /\ applied = {} /\ ncfg = 0 /\ nreq = 0 /\ pend = <<>>
+        /\ cur = NoCfg /\ applied = {} /\ ncfg = 0 /\ nreq = 0 /\ lastc = 0 /\ pend = <<>>
         /\ act = IF EmitOn THEN ToJson([op |-> "Init"]) ELSE ""
 
 \* exhaustive over configurations (requests are quantified inside the invariants)
 NextMC == \/ /\ pend = <<>> /\ ncfg < MaxCfgs
              /\ \E wn \in IPSets, wo \in IPSets : pend' = <<wn, wo>>
-             /\ UNCHANGED <<ipmap, jwl, jbl, gwl, gbl, cur, applied, ncfg, nreq, act>>
+             /\ UNCHANGED <<ipmap, jwl, jbl, gwl, gbl, cur, applied, ncfg, nreq, act, lastc>>
           \/ /\ pend # <<>>
              /\ \E c \in CfgU(pend[1], pend[2]) : CfgStep(c)
              /\ pend' = <<>>
@@ -242,9 +244,9 @@ RandReq(i) ==
   \/ /\ i = 3
      /\ ReqE(a, RandomElement(EShapes))
 NextSim == /\ pend' = pend
-           /\ \/ /\ (ncfg = 0 \/ nreq >= 4 * ncfg) /\ CfgStep(RandCfg)
+           /\ \/ /\ (ncfg = 0 \/ nreq >= lastc + 5) /\ CfgStep(RandCfg(nreq + ncfg))
               \/ /\ ncfg > 0 /\ nreq < MaxReqs /\ \E i \in 0..3 : RandReq(i)
-              \/ /\ ncfg >= 2 /\ nreq < MaxReqs - 5 /\ Restart
+              \/ /\ ncfg >= 2 /\ nreq >= lastc + 5 /\ nreq < MaxReqs - 5 /\ Restart
 
 \* row export ("all"): every configuration of the universe, then ONE request row.  Rows enumerated:
 \*   JSON-RPC  every address x method x credentials class with the exact shape (quick: bad / missing
